@@ -1604,6 +1604,10 @@ where
         let Some(maybe_setup) = call_expr.args.first() else {
             return;
         };
+        // `defineComponent(...args)` / `defineComponent(setup, ...rest)` are left alone
+        if call_expr.args.iter().take(2).any(|arg| arg.spread.is_some()) {
+            return;
+        }
 
         // options written by the user always win, so there is nothing to derive for them
         let props_types = if has_define_component_option(call_expr, "props") {
